@@ -1324,7 +1324,38 @@ func (e *Engine) closedWorld(t types.Type) []*ssa.Function { return nil }
 func (e *Engine) dispatchClosed(p *Path, fr *Frame, cw []*ssa.Function, c *ssa.CallCommon, recv Value, args []Value, dst ssa.Value, isDefer bool, pos token.Pos) []*Path {
 	return nil
 }
-func (e *Engine) fieldContractFor(v ssa.Value) *Contract { return nil }
+// fieldContractFor: a call through a function value loaded from a struct field (x.F(...)) uses the
+// contract declared for that field as `//@ iface pkg.Type.Field` (an assumption about every function
+// ever stored there, listed as trusted).
+func (e *Engine) fieldContractFor(v ssa.Value) *Contract {
+	u, ok := v.(*ssa.UnOp)
+	if !ok || u.Op != token.MUL {
+		return nil
+	}
+	fa, ok := u.X.(*ssa.FieldAddr)
+	if !ok {
+		return nil
+	}
+	pt, ok := fa.X.Type().Underlying().(*types.Pointer)
+	if !ok {
+		return nil
+	}
+	st, ok := pt.Elem().Underlying().(*types.Struct)
+	if !ok {
+		return nil
+	}
+	nm, ok := pt.Elem().(*types.Named)
+	if !ok || nm.Obj().Pkg() == nil {
+		return nil
+	}
+	key := nm.Obj().Pkg().Name() + "." + nm.Obj().Name() + "." + st.Field(fa.Field).Name()
+	ct := e.cs.Ifaces[key]
+	if ct != nil {
+		ct.Used = true
+		e.TrustedUse["field "+key+" (assumed contract of the function values stored in this field)"] = true
+	}
+	return ct
+}
 
 // ---------------------------------------------------------------------------------------------
 // verification of one function
